@@ -22,7 +22,9 @@
    +1.4e-15), and everything that follows (which branch of _calculate_tt_nu, nu = 0 or not, t ~ 1e8..1e10)
    hangs on its sign.  The exact variance of the stored (dyadic) sum and sumsq is a DIFFERENT tiny number,
    so var_f below performs the four operations with `fl`, round-to-nearest-even to 53 significant bits
-   (binary64 without exponent limits: no overflow / underflow is modelled, statistics are far from both),
+   (binary64 without exponent limits: no overflow / underflow is modelled, statistics are far from both;
+    NOR IS THE INT64 WRAP OF n**3 - n**2 - audit 4, A6: EXPLICIT HYPOTHESIS OF THIS MODEL: every cluster /
+    node has n_cells <= 2^21 = 2,097,152, see kterm below),
    and nu_num = fl(fl(var1/n1) + fl(var2/n2)) likewise, so that the tests `denom > 0.0` and
    `nu_denom > 0.0` are decided exactly as the code decides them.  For the same reason the means and their
    difference are the binary64 ones (mean_f, mdiff_f: sign of t, direction, log2_fold).  The remaining operations (sqrt,
@@ -101,7 +103,17 @@ Definition mdiff_f (D : Z) (c1 c2 : cstat) : rat := fl (rsub (mean_f D c1) (mean
 
 (* ---- _calculate_tt_nu ---- *)
 Inductive ext := EFin (n d : Z) | EInf | ENan.
-(* var**2 / (n**3 - n**2), n >= 1 *)
+(* var**2 / (n**3 - n**2), n >= 1.
+   HYPOTHESIS n <= 2^21 (audit 4, A6).  Here n is an unbounded integer.  In the real code n_cells is the
+   np.int64 that read_raw_precomputed_stats takes out of the 'n_cells' dataset (summed by aggregate_stats), so
+   n**3 - n**2 is computed in int64 and WRAPS as soon as n**3 >= 2^63, i.e. for n > 2^21 (n = 2^21 itself is
+   still right: n**3 wraps to -2^63 and the subtraction wraps back; Proofs/WelchP.v
+   kterm_den_no_int64_wrap: 0 <= n <= 2^21 -> 0 <= n^3 - n^2 < 2^63).  Beyond it the real nu is not this
+   model's: for 2^21 < n <= 2,642,245 the wrapped value is NEGATIVE (two such nodes: nu_denom < 0 falls back
+   to 1.0, nu ~ 1e-12, p-value 1.0 for every gene), above that it is a wrong positive number (n1 = 3,000,000
+   against a constant gene in 5 cells: real nu = 950360.77, this model 2999999).  Props/C11.v
+   c11_int64_wrap_outside_model.  Every theorem "from the statistics" is a statement about runs in which
+   all n_cells are <= 2^21. *)
 Definition kterm (v : rat) (n : Z) : ext :=
   if n =? 1 then (if fst v =? 0 then ENan else EInf)
   else EFin (fst v * fst v) (snd v * snd v * (n * n * n - n * n)).
